@@ -17,9 +17,10 @@ LEVEL_TEXT = (
     "itself, its attribute containers, their elements/views, local aliases and conditional aliases ('copy only if"
     " ...') - directly or through a resolved callee that mutates the corresponding parameter; copies (list(), "
     "comprehension, slice, copy, deepcopy) end ownership; (R2) registration / preprocessing / weight rewriting "
-    "are called only from the construction set and production weights are stored only by the weight decorator and"
-    " update_weights; (R3) the grammar's observable tables are not auto-vivifying (a defaultdict would turn every"
-    " unguarded read into an insertion) or every read outside construction is membership-guarded. (R4) the "
+    "are called only from the construction set and production weights are written - by item store, setdefault, "
+    "update, __setitem__, pop or del - only by the weight decorator and update_weights (reading a weight must not"
+    " declare one); (R3) the grammar's observable tables are not auto-vivifying (a defaultdict would turn every "
+    "unguarded read into an insertion) or every read outside construction is membership-guarded. (R4) the "
     "refinement objects attached to annotated types are part of the grammar: no method of a MetaHandlerGenerator "
     "subclass other than its constructor modifies the object's own state - attributes, their containers, elements"
     " and views such as the rows of a probability matrix - directly or by passing them to a callee that writes to"
